@@ -27,7 +27,7 @@ COLS_VAL = ["peak_val", "trough_val", "tip_val", "recovery_val"]
 def gen_cases(seed, tier):
     n = 30 if tier == "quick" else 4000
     cases = []
-    for cls in ("realistic", "positions", "swap", "degenerate", "nanpad"):
+    for cls in ("realistic", "positions", "swap", "degenerate", "nanpad", "ties"):
         cases += [{"cls": cls, "seed": seed * 10000 + i, "n": 4, "_w": 1} for i in range(n if cls in ("realistic", "positions") else n // 2)]
     return cases
 
@@ -88,7 +88,20 @@ def batch(rng, cls):
             cols = rng.choice(C, k, replace=False)
             cols = cols[cols != meta[i][2]]
             arr[i][:, cols] = np.nan
-    # the largest deflection must not sit on sample 0 (outside the property's domain): re-draw such waveforms
+    if cls == "ties":
+        # quantised amplitudes (integer counts, as read from a recording): the largest absolute value is reached on TWO traces at different
+        # times - the reported peak must still be ONE sample of the waveform: the value at (peak trace, peak time) is the global extremum
+        for i in range(N):
+            a = arr[i]
+            a[:] = np.round(a / np.max(np.abs(a)) * float(rng.integers(40, 4000)))
+            if C < 2 or T < 6:
+                continue
+            A = float(np.max(np.abs(a)))
+            c_pk = int(np.argmax(np.max(np.abs(a), axis=0)))
+            t_pk = int(np.argmax(np.abs(a[:, c_pk])))
+            c2 = int(rng.choice([c for c in range(C) if c != c_pk]))
+            t2 = int(rng.choice([t for t in range(1, T) if t != t_pk]))
+            a[t2, c2] = A * float(rng.choice([-1.0, 1.0]))
     for i in range(N):
         a = np.nan_to_num(arr[i])
         ch = np.argmax(np.max(np.abs(a), axis=0))
@@ -212,6 +225,12 @@ def run_case(case):
         res.check(len(df) == N, "features:rows", f"{label0}: {len(df)} rows for {N} waveforms")
         for i in range(N):
             compare_row(res, df.iloc[i], refs[i], f"{label0} wav {i} (polarity {meta[i][0]:+.0f})", fs)
+            row = df.iloc[i]
+            a0 = np.nan_to_num(arr[i])
+            at = a0[int(row["peak_time_idx"]), int(row["peak_trace_idx"])]
+            res.check(at == row["peak_val"] and (refs[i]["swapped"] or abs(at) == np.max(np.abs(a0))), "features:peak-is-one-sample",
+                      f"{label0} wav {i}: the waveform holds {at} at (time {int(row['peak_time_idx'])}, trace {int(row['peak_trace_idx'])}), reported peak_val {row['peak_val']}, "
+                      f"global extremum {np.max(np.abs(a0))}", counter="peak_sample_checked")
             r = refs[i]
             if "tip_time_idx" in r and r["tip_time_idx"] < r["peak_time_idx"] < r["trough_time_idx"]:
                 nt += 1
@@ -237,8 +256,8 @@ def run_case(case):
             res.check(ok_v, "equivariance:scaling-values", f"{label0}: values do not scale by 2^{e}")
         except Exception as ex:
             res.exception(key_exc, ex, f"{label0} scaled")
-        # ---- channel permutation only permutes the peak-channel index
-        perm = rng.permutation(C)
+        # ---- channel permutation only permutes the peak-channel index (not asserted when two traces tie for the extremum: either is 'the' peak)
+        perm = rng.permutation(C) if case["cls"] != "ties" else np.arange(C)
         try:
             d3 = W.compute_spike_features(arr[:, :, perm].copy(), fs=fs, recovery_duration_ms=ms)
             ok = np.array_equal(perm[d3["peak_trace_idx"].to_numpy()], df["peak_trace_idx"].to_numpy())
